@@ -6,19 +6,31 @@ package obiapat
 //
 // Bounded exhaustive enumeration: every concatenation of <= 4 segments taken from
 // {forward site with 0,1,2 mismatches, rc(reverse site) idem, the reverse complements of those
-// (reverse orientation), filler of 1 nt, filler of 3 nt, two overlapping sites} for two IUPAC primer pairs of lengths 5/6 and
-// 6/5, x error budget x min/max bounds x extension mode x {linear, circular}. Every case is run through
-// the real PCRSim and compared with a brute-force reference PCR that uses the harness's own IUPAC
-// matcher; metamorphic relations: rc(template) gives the same multiset with the direction flipped,
-// every rotation of a circular template gives the same multiset. Batch histories: every ordered
-// pair / triple of templates of a subset through one PCRSlice call (recycled C sequence buffer and hit
-// stacks) against PCRSim on each template alone.
+// (reverse orientation), filler of 1 nt, filler of 3 nt, two overlapping sites} for three IUPAC primer
+// pairs of lengths 5/6, 6/5 and 4/10, x error budget x min/max bounds x extension mode x {linear,
+// circular}. Every case is run through the real PCRSim and compared with a brute-force reference PCR
+// that uses the harness's own IUPAC matcher; metamorphic relations: rc(template) gives the same
+// multiset with the direction flipped, every rotation of a circular template gives the same multiset.
+//
+// Long templates: the same grammar with one 70-nt filler inserted at every place. FindAllIndex adds a
+// scan margin of MAX_PAT_LEN (64) to every window, so on templates shorter than that the search
+// windows _Pcr derives from the maximum length never decide anything.
+//
+// Batch histories: every ordered pair / triple of templates of a subset through one PCRSlice call
+// (recycled C sequence buffer and hit stacks) against PCRSim on each template alone, template by
+// template, for error budgets 1/1 and for different budgets on the two primers (2/0, 0/2: exact
+// searches and searches with errors alternate on the same recycled sequence).
+//
+// The command path (option parser, CLIPCR, --fragmented) is the second part of the check:
+// harness/pkg__obitools__obipcr/zz_verif_c11_test.go.
 
 import (
 	"encoding/json"
 	"fmt"
 	"sort"
+	"strconv"
 	"strings"
+	"syscall"
 	"testing"
 
 	"git.metabarcoding.org/obitools/obitools4/obitools4/pkg/obiseq"
@@ -70,13 +82,15 @@ func (c c11cfg) String() string {
 
 // one amplicon as the property describes it
 type c11amp struct {
-	Dir string
-	Seq string // "*" in an optional reference entry: sequence left unconstrained
-	FM  string
-	FE  int
-	RM  string
-	RE  int
-	tag string // reference only: geometric class of the pair (used in violation keys)
+	Dir  string
+	Seq  string // "*" in an optional reference entry: sequence left unconstrained
+	FM   string
+	FE   int
+	RM   string
+	RE   int
+	tag  string // reference only: geometric class of the pair (used in violation keys)
+	alts string // reported records absorbed by an optional reference entry: the tags of ALL optional entries describing the same record, "," separated
+	src  int    // reported records only: index N of the template "tplN" the record id derives from (-1: unknown)
 
 	junction string // reference only: a primer site lies across the origin of the circle
 }
@@ -299,7 +313,14 @@ func c11collect(c c11cfg, res obiseq.BioSequenceSlice, o *c11out) {
 			continue
 		}
 		an := s.Annotations()
-		a := c11amp{Seq: s.String()}
+		a := c11amp{Seq: s.String(), src: -1}
+		if id := s.Id(); strings.HasPrefix(id, "tpl") {
+			if i := strings.Index(id, "_sub["); i > 3 {
+				if n, err := strconv.Atoi(id[3:i]); err == nil {
+					a.src = n
+				}
+			}
+		}
 		var ok [5]bool
 		a.Dir, ok[0] = an["direction"].(string)
 		a.FM, ok[1] = an["forward_match"].(string)
@@ -424,6 +445,22 @@ func c11split(req, opt, got []c11amp) (diffs []c11diff, core, open []c11amp) {
 			return g.c11key() == oo.c11key()
 		}); ok {
 			g.tag = oo.tag
+			// several optional pairs can describe the same record (same direction, match strings and
+			// error counts, sequence left open): remember every class that explains it
+			seen := map[string]bool{}
+			for _, o2 := range opt {
+				g2 := g
+				if o2.Seq == "*" {
+					g2.Seq = "*"
+				}
+				if g2.c11key() == o2.c11key() && !seen[o2.tag] {
+					seen[o2.tag] = true
+					if g.alts != "" {
+						g.alts += ","
+					}
+					g.alts += o2.tag
+				}
+			}
 			open = append(open, g)
 		}
 	}
@@ -453,6 +490,7 @@ func c11split(req, opt, got []c11amp) (diffs []c11diff, core, open []c11amp) {
 type c11runner struct {
 	r       *verifkit.Result
 	workers map[c11cfg]obiseq.SeqSliceWorker
+	rotSkip func(k int) bool // rotations not to run (nil: run them all)
 }
 
 type c11obs struct {
@@ -481,17 +519,54 @@ func (x *c11runner) observe(c c11cfg, t string) (o c11obs) {
 	return o
 }
 
+// c11openTag names the class of a difference between two multisets of amplicons of pairs the
+// statement leaves open: only the records that DIFFER count. A differing record that some
+// sites-overlap-on-circle pair describes belongs to that class (an optional entry whose sequence is
+// left open is interchangeable with any other of the same match strings and error counts); if a
+// differing record is described by no such pair, the key carries its own class (touching,
+// longer-than-circle) so that it cannot hide behind the other one.
 func c11openTag(a, b []c11amp) string {
-	tag := "open-pairs"
-	for _, l := range [][]c11amp{a, b} {
+	ma, mb := c11multiset(a), c11multiset(b)
+	tag := ""
+	explained := func(l []c11amp, k string) {
 		for _, g := range l {
-			if g.tag == "sites-overlap-on-circle" {
-				return g.tag
+			if g.c11key() != k {
+				continue
 			}
-			if g.tag != "" {
+			for _, t := range strings.Split(g.alts, ",") {
+				if t == "sites-overlap-on-circle" {
+					return
+				}
+			}
+			if tag == "" {
 				tag = g.tag
+				if tag == "" {
+					tag = "open-pairs"
+				}
 			}
+			return
 		}
+	}
+	var keys []string
+	for k := range ma {
+		keys = append(keys, k)
+	}
+	for k := range mb {
+		if _, ok := ma[k]; !ok {
+			keys = append(keys, k)
+		}
+	}
+	sort.Strings(keys)
+	for _, k := range keys {
+		switch {
+		case ma[k] > mb[k]:
+			explained(a, k)
+		case mb[k] > ma[k]:
+			explained(b, k)
+		}
+	}
+	if tag == "" {
+		return "sites-overlap-on-circle"
 	}
 	return tag
 }
@@ -554,13 +629,16 @@ func (x *c11runner) single(c c11cfg, t string, rotations bool) {
 		if same, why := c11sameMultiset(o.core, c11flip(o2.core)); !same {
 			r.Violate(base+"/rc-asymmetry", desc(fmt.Sprintf("rc(template)=%q gives a different multiset (direction flipped): %s", rcT, why)), cs)
 		} else if same, why := c11sameMultiset(o.open, c11flip(o2.open)); !same {
-			r.Violate(base+"/rc-asymmetry:"+c11openTag(o.open, o2.open), desc(fmt.Sprintf("rc(template)=%q gives a different multiset (direction flipped), the difference being amplicons of pairs the statement leaves open: %s", rcT, why)), cs)
+			r.Violate(base+"/rc-asymmetry:"+c11openTag(o.open, c11flip(o2.open)), desc(fmt.Sprintf("rc(template)=%q gives a different multiset (direction flipped), the difference being amplicons of pairs the statement leaves open: %s", rcT, why)), cs)
 		}
 	}
 
 	// metamorphic 2: rotations of a circular template
 	if c.Circ && rotations {
 		for k := 1; k < len(t); k++ {
+			if x.rotSkip != nil && x.rotSkip(k) {
+				continue
+			}
 			rt := t[k:] + t[:k]
 			o3 := x.observe(c, rt)
 			r.Count("rotations", 1)
@@ -607,7 +685,8 @@ func (x *c11runner) batch(c c11cfg, ts []string) {
 		}
 	}
 	var alone []c11amp
-	for _, t := range ts {
+	per := make([][]c11amp, len(ts))
+	for i, t := range ts {
 		o := c11sim(t, c)
 		r.Trans(1)
 		if o.fatal != "" {
@@ -615,12 +694,17 @@ func (x *c11runner) batch(c c11cfg, ts []string) {
 			return // reported by the single-template enumeration
 		}
 		alone = append(alone, o.amps...)
+		per[i] = o.amps
 	}
 	got := x.slice(ts, c)
 	r.Eval(1)
 	r.Trans(int64(len(ts)))
 	r.Count("batches", 1)
 	r.Count("batch_amplicons", int64(len(alone)))
+	if c.FErr != c.RErr {
+		r.Count("batches_asymmetric_budgets", 1)
+		r.Count("batch_amplicons_asymmetric_budgets", int64(len(alone)))
+	}
 	base := "PCRSlice/" + c.c11topo()
 	desc := func(s string) string { return fmt.Sprintf("batch=%q %v: %s", ts, c, s) }
 	if got.fatal != "" {
@@ -630,8 +714,52 @@ func (x *c11runner) batch(c c11cfg, ts []string) {
 	if got.bad != "" {
 		r.Violate(base+"/malformed-record", desc(got.bad), cs)
 	}
-	if same, why := c11sameMultiset(alone, got.amps); !same {
-		r.Violate(base+"/batch-differs-from-single", desc("PCRSim on each template alone vs the batch through one recycled ApatSequence: "+why), cs)
+	// template by template when the record ids tell where each record comes from (the key then names
+	// the place in the batch history and the kind of difference), else as one multiset
+	gper := make([][]c11amp, len(ts))
+	attributed := true
+	for _, a := range got.amps {
+		if a.src < 0 || a.src >= len(ts) {
+			attributed = false
+			break
+		}
+		gper[a.src] = append(gper[a.src], a)
+	}
+	if !attributed {
+		if same, why := c11sameMultiset(alone, got.amps); !same {
+			r.Violate(base+"/batch-differs-from-single", desc("PCRSim on each template alone vs the batch through one recycled ApatSequence: "+why), cs)
+		}
+		return
+	}
+	for i := range ts {
+		same, why := c11sameMultiset(per[i], gper[i])
+		if same {
+			continue
+		}
+		ma, mb := c11multiset(per[i]), c11multiset(gper[i])
+		missing, spurious := false, false
+		for k, n := range ma {
+			if mb[k] < n {
+				missing = true
+			}
+		}
+		for k, n := range mb {
+			if ma[k] < n {
+				spurious = true
+			}
+		}
+		pos, class := "later", "missing"
+		if i == 0 {
+			pos = "first"
+		}
+		switch {
+		case missing && spurious:
+			class = "missing+spurious"
+		case spurious:
+			class = "spurious"
+		}
+		r.Violate(fmt.Sprintf("%s/batch-differs-from-single:%s-template/%s", base, pos, class),
+			desc(fmt.Sprintf("template #%d %q, PCRSim alone vs inside the batch (one recycled ApatSequence): %s", i, ts[i], why)), cs)
 	}
 }
 
@@ -712,6 +840,46 @@ func c11templates(seg []string, maxSeg int, f func(t string, nseg int)) {
 	rec("", 0)
 }
 
+// c11cpu: CPU time used by the process so far, in ms (reporting only, never an oracle).
+func c11cpu() int64 {
+	var ru syscall.Rusage
+	if syscall.Getrusage(syscall.RUSAGE_SELF, &ru) != nil {
+		return 0
+	}
+	return (ru.Utime.Sec+ru.Stime.Sec)*1000 + int64(ru.Utime.Usec+ru.Stime.Usec)/1000
+}
+
+// c11parts: every list of <= maxSeg segments.
+func c11parts(seg []string, maxSeg int, f func(parts []string)) {
+	var rec func(prefix []string)
+	rec = func(prefix []string) {
+		f(prefix)
+		if len(prefix) == maxSeg {
+			return
+		}
+		for _, s := range seg {
+			rec(append(prefix[:len(prefix):len(prefix)], s))
+		}
+	}
+	rec(nil)
+}
+
+// c11longFiller: aperiodic (Thue-Morse) filler over {c,t}, longer than the scan margin MAX_PAT_LEN
+// (64) that FindAllIndex adds to every search window: only with such a stretch between two sites do
+// the search windows computed by _Pcr from the maximum length decide anything.
+func c11longFiller(n int) string {
+	b := make([]byte, n)
+	for i := range b {
+		x, par := i, 0
+		for x > 0 {
+			par ^= x & 1
+			x >>= 1
+		}
+		b[i] = "ct"[par]
+	}
+	return string(b)
+}
+
 // c11configs: base = the configurations of the quick tier; the thorough tier adds mixed error
 // budgets, one-sided bounds and extensions 0 and 7.
 func c11configs(p c11pair, thorough bool) (out []c11cfg, base map[c11cfg]bool) {
@@ -753,7 +921,7 @@ func TestVerifC11(t *testing.T) {
 	log.StandardLogger().ExitFunc = func(int) { panic(c11exit{}) }
 	r := verifkit.New("C11")
 	defer r.Write()
-	x := &c11runner{r, map[c11cfg]obiseq.SeqSliceWorker{}}
+	x := &c11runner{r: r, workers: map[c11cfg]obiseq.SeqSliceWorker{}}
 
 	if rc := r.ReplayCase(); rc != nil {
 		var c c11case
@@ -772,28 +940,44 @@ func TestVerifC11(t *testing.T) {
 	}
 
 	thorough := verifkit.Thorough()
-	pairs := []c11pair{{"aacgr", "ttyagc", "aacggctgaa"}, {"gwtacc", "aakgg", "gataccctt"}}
+	// third pair: primers of very different lengths (4 and 10)
+	pairs := []c11pair{{"aacgr", "ttyagc", "aacggctgaa"}, {"gwtacc", "aakgg", "gataccctt"}, {"cwtg", "ttayagtkca", "catgcactgtaa"}}
 	maxSeg := 4
+	long := c11longFiller(70)
 	r.Bound("primer_pairs", fmt.Sprintf("%v", pairs))
 	r.Bound("max_segments", maxSeg)
 	if thorough {
-		r.Bound("four_segment_templates", "all configurations; rotations for the 24 base configurations")
+		r.Bound("four_segment_templates", "pairs 1 and 2: all configurations, rotations for the 24 base configurations; pair 3: error budget 1/1, no rotations")
+		r.Bound("long_templates", "one 70-nt filler inserted at every place of every template of <= 3 segments (all configurations) and strictly inside every template of 4 segments (linear configurations with a maximum length, every budget but 0/0, extension none or 2)")
 	} else {
-		r.Bound("four_segment_templates", "configurations with error budget 1/1 only; no rotations")
+		r.Bound("four_segment_templates", "pairs 1 and 2, configurations with error budget 1/1 only; no rotations")
+		r.Bound("long_templates", "pairs 1 and 2: one 70-nt filler inserted at every place of every template of <= 3 segments (3 segments: error budget 1/1 only) and strictly inside every template of 4 segments (linear configurations with a maximum length, error budget 1/1, no or clipped flanks)")
 	}
-	r.Bound("rotations", "every rotation of every circular template of <= 3 segments")
+	r.Bound("rotations", "every rotation of every circular template of <= 3 segments; long templates (<= 2 segments + filler, error budget 1/1; thorough: all budgets, and 3 segments for the base configurations with budget 1/1): every rotation whose origin is outside the filler or within 8 nt of its ends, and its middle")
 	r.Bound("segments_per_pair", 15)
 	r.RequireNonVacuous("amplicons_required")
 	r.RequireNonVacuous("batches")
+	r.RequireNonVacuous("long_amplicons_required")
+	r.RequireNonVacuous("batch_amplicons_asymmetric_budgets")
 
 	k := 0
-	for _, p := range pairs {
+	cpu0 := c11cpu()
+	phase := func(name string) {
+		now := c11cpu()
+		r.Count("cpu_ms_"+name, now-cpu0)
+		cpu0 = now
+	}
+	for ip, p := range pairs {
 		seg := c11segments(p)
 		cfgs, baseCfg := c11configs(p, thorough)
 		r.Bound("configs_per_pair", len(cfgs))
 		r.Bound("segments_"+p.fwd+"_"+p.rev, strings.Join(seg, ","))
+		pairMaxSeg := maxSeg
+		if ip == 2 && !thorough {
+			pairMaxSeg = 3
+		}
 		stop := false
-		c11templates(seg, maxSeg, func(tpl string, nseg int) {
+		c11templates(seg, pairMaxSeg, func(tpl string, nseg int) {
 			if stop {
 				return
 			}
@@ -804,20 +988,86 @@ func TestVerifC11(t *testing.T) {
 			}
 			r.State(p.fwd + ":" + tpl)
 			for _, c := range cfgs {
-				if nseg == 4 && !thorough && !(c.FErr == 1 && c.RErr == 1) {
+				if nseg == 4 && (!thorough || ip == 2) && !(c.FErr == 1 && c.RErr == 1) {
 					continue
 				}
-				x.single(c, tpl, nseg <= 3 || (thorough && baseCfg[c]))
+				x.single(c, tpl, nseg <= 3 || (thorough && ip < 2 && baseCfg[c]))
 			}
 			if r.Expired() {
 				stop = true
 			}
 		})
+		phase("segment_templates")
 		if stop {
 			return
 		}
 
+		// long templates: the same grammar with one filler longer than the scan margin
+		if ip < 2 || thorough {
+			c11parts(seg, maxSeg, func(parts []string) {
+				if stop {
+					return
+				}
+				nseg := len(parts)
+				for at := 0; at <= nseg; at++ {
+					if nseg == 4 && (at == 0 || at == nseg) {
+						continue // 4 segments: filler strictly inside only
+					}
+					mine := r.Mine(k)
+					k++
+					if !mine {
+						continue
+					}
+					head := strings.Join(parts[:at], "")
+					tpl := head + long + strings.Join(parts[at:], "")
+					lo, hi := len(head), len(head)+len(long)
+					x.rotSkip = func(k int) bool { return k > lo+8 && k < hi-8 && k != (lo+hi)/2 }
+					r.State(p.fwd + ":" + tpl)
+					r.Count("long_templates", 1)
+					before := r.Counters["amplicons_required"]
+					for _, c := range cfgs {
+						window := !c.Circ && c.Max > 0 // the search windows of _Pcr depend on the maximum length
+						e11 := c.FErr == 1 && c.RErr == 1
+						rot := nseg <= 2
+						switch {
+						case thorough && nseg == 4:
+							// filler strictly inside; every budget but 0/0; extension none or 2
+							if !window || c.FErr+c.RErr == 0 || (c.Ext != -1 && c.Ext != 2) || at == 0 || at == nseg {
+								continue
+							}
+						case thorough:
+							rot = rot || (nseg == 3 && baseCfg[c] && e11)
+						case nseg == 4:
+							// filler strictly inside, no complete-flank mode
+							if !(window && e11) || c.Full || at == 0 || at == nseg {
+								continue
+							}
+						case nseg == 3:
+							if !e11 {
+								continue
+							}
+						default:
+							rot = e11
+						}
+						x.single(c, tpl, rot)
+					}
+					r.Count("long_amplicons_required", r.Counters["amplicons_required"]-before)
+					x.rotSkip = nil
+				}
+				if r.Expired() {
+					stop = true
+				}
+			})
+			phase("long_templates")
+			if stop {
+				return
+			}
+		}
+
 		// batch histories through one recycled ApatSequence
+		if ip == 2 && !thorough {
+			continue
+		}
 		var small, tiny []string
 		c11templates(seg, 2, func(tpl string, nseg int) { small = append(small, tpl) })
 		c11templates(seg, 1, func(tpl string, nseg int) { tiny = append(tiny, tpl) })
@@ -829,6 +1079,22 @@ func TestVerifC11(t *testing.T) {
 					continue
 				}
 				bcfgs = append(bcfgs, c)
+			}
+		}
+		// different error budgets for the two primers (an exact search and a search with errors
+		// alternate on the same recycled sequence: forward 2 / reverse 0 and the converse)
+		for _, e := range [][2]int{{2, 0}, {0, 2}} {
+			for _, circ := range []bool{false, true} {
+				bcfgs = append(bcfgs, c11cfg{Fwd: p.fwd, Rev: p.rev, FErr: e[0], RErr: e[1], Ext: -1, Circ: circ})
+			}
+		}
+		// ... each of them first against the reference, on every template of the batch histories
+		for _, c := range bcfgs[len(bcfgs)-4:] {
+			for _, a := range small {
+				if r.Mine(k) {
+					x.single(c, a, true)
+				}
+				k++
 			}
 		}
 		r.Bound("batch_configs_per_pair", len(bcfgs))
@@ -857,6 +1123,7 @@ func TestVerifC11(t *testing.T) {
 				}
 			}
 		}
+		phase("batch_histories")
 	}
 	r.Sample(c11case{Kind: "single", Cfg: c11cfg{Fwd: "aacgr", Rev: "ttyagc", FErr: 1, RErr: 1, Ext: -1}, T: []string{"aacgatcagctraa"}})
 }
